@@ -84,4 +84,13 @@ LEVEL["C20"] = {
     "design_ref": "DESIGN.md 4/C20", "note": _NOTE + " Aliasing is not expressible in the value model; its absence is checked by execution only.", "technique": "Lean 4 proof (algebraic laws of a value model) + correspondence check detecting aliasing",
 }
 
+LEVEL["C13"] = {
+    "text": "Lean theorems: for each lexical class of the generic and the expression tokenizer a one-step theorem (the state cuts exactly that lexeme with that class when the following rune cannot extend it), and the sequence theorems: every pairwise-separated lexeme list tokenizes back to exactly those lexemes, classes and positions. Built on the segment lemmas, the symbol-table theorem (longest registered symbol wins) and the quote round trip. Tied to the Go tokenizers by random lexeme sequences from both lexical grammars with a lexeme-list oracle.",
+    "design_ref": "DESIGN.md 4/C13", "note": _TOKNOTE, "technique": "Lean 4 proof (per-class lexeme lemmas + induction over separated lexeme sequences) + correspondence check",
+}
+LEVEL["C09"] = {
+    "text": "Lean theorem C09_roundtrip: for every valid separator/quote configuration, line ending and table, regrouping the tokens of the written CSV text returns the original rows and fields (raw fields, quoted fields with embedded separators/line breaks/doubled quotes, empty fields, non-ASCII text; each line ending is one Eol token). Tied to the Go CSV tokenizer by random tables over 5 configurations and 4 line endings with a regrouping oracle.",
+    "design_ref": "DESIGN.md 4/C09", "note": _TOKNOTE, "technique": "Lean 4 proof (round trip by induction over rows and fields from per-token lemmas) + correspondence check",
+}
+
 NOT_APPLICABLE = {}
